@@ -18,13 +18,17 @@ structure Wrote (m m' : Memory) (W : List (BitVec 32)) (P : BitVec 32 → Prop) 
   low : m'.lowAddress ≤ m.lowAddress
   high : m.highAddress ≤ m'.highAddress
   inside : ∀ x ∈ W, m'.lowAddress ≤ x ∧ x ≤ m'.highAddress
+  lowAtt : m'.lowAddress = m.lowAddress ∨ m'.lowAddress ∈ W
+  highAtt : m'.highAddress = m.highAddress ∨ m'.highAddress ∈ W
 
 theorem Wrote.refl (m : Memory) (P : BitVec 32 → Prop) : Wrote m m [] P := by
-  refine ⟨fun _ _ => rfl, fun _ _ => rfl, ?_, BitVec.le_refl _, BitVec.le_refl _, ?_⟩ <;> (intro x h; cases h)
+  refine ⟨fun _ _ => rfl, fun _ _ => rfl, ?_, BitVec.le_refl _, BitVec.le_refl _, ?_, Or.inl rfl, Or.inl rfl⟩ <;>
+    (intro x h; cases h)
 
 /-- a change of the byte-order flag only -/
 theorem Wrote.endian (m : Memory) (b : Bool) (P : BitVec 32 → Prop) : Wrote m { m with bigEndian := b } [] P := by
-  refine ⟨fun _ _ => rfl, fun _ _ => rfl, ?_, BitVec.le_refl _, BitVec.le_refl _, ?_⟩ <;> (intro x h; cases h)
+  refine ⟨fun _ _ => rfl, fun _ _ => rfl, ?_, BitVec.le_refl _, BitVec.le_refl _, ?_, Or.inl rfl, Or.inl rfl⟩ <;>
+    (intro x h; cases h)
 
 theorem writeBytes_append (st : St) (xs ys : List Byte) :
     writeBytes st (xs ++ ys) = writeBytes (writeBytes st xs) ys := by
@@ -32,7 +36,7 @@ theorem writeBytes_append (st : St) (xs ys : List Byte) :
 
 theorem Wrote.append {m m' m'' : Memory} {W W' : List (BitVec 32)} {P : BitVec 32 → Prop}
     (h1 : Wrote m m' W P) (h2 : Wrote m' m'' W' P) : Wrote m m'' (W ++ W') P := by
-  refine ⟨?_, ?_, ?_, ?_, ?_, ?_⟩
+  refine ⟨?_, ?_, ?_, ?_, ?_, ?_, ?_, ?_⟩
   · intro x hx
     simp only [List.mem_append, not_or] at hx
     rw [h2.frame8 x hx.2, h1.frame8 x hx.1]
@@ -53,15 +57,25 @@ theorem Wrote.append {m m' m'' : Memory} {W W' : List (BitVec 32)} {P : BitVec 3
     · obtain ⟨a, b⟩ := h1.inside x h'
       exact ⟨BitVec.le_trans h2.low a, BitVec.le_trans b h2.high⟩
     · exact h2.inside x h'
+  · rcases h2.lowAtt with e | e
+    · rcases h1.lowAtt with e1 | e1
+      · exact Or.inl (by rw [e, e1])
+      · exact Or.inr (List.mem_append_left _ (by rw [e]; exact e1))
+    · exact Or.inr (List.mem_append_right _ e)
+  · rcases h2.highAtt with e | e
+    · rcases h1.highAtt with e1 | e1
+      · exact Or.inl (by rw [e, e1])
+      · exact Or.inr (List.mem_append_left _ (by rw [e]; exact e1))
+    · exact Or.inr (List.mem_append_right _ e)
 
 theorem Wrote.mono {m m' : Memory} {W : List (BitVec 32)} {P Q : BitVec 32 → Prop} (h : Wrote m m' W P)
     (hpq : ∀ v, P v → Q v) : Wrote m m' W Q :=
-  ⟨h.frame8, h.frameD, fun x hx => hpq _ (h.marks x hx), h.low, h.high, h.inside⟩
+  ⟨h.frame8, h.frameD, fun x hx => hpq _ (h.marks x hx), h.low, h.high, h.inside, h.lowAtt, h.highAtt⟩
 
 /-- `Memory::write(address, data, line)` -/
 theorem wrote_write (m : Memory) (a : BitVec 32) (d : Byte) (mk : BitVec 32) (P : BitVec 32 → Prop) (hp : P mk) :
     Wrote m (write m a d mk) [a] P := by
-  refine ⟨?_, ?_, ?_, ?_, ?_, ?_⟩
+  refine ⟨?_, ?_, ?_, ?_, ?_, ?_, ?_, ?_⟩
   · intro x hx
     rw [read8_write, if_neg (by simpa using hx)]
   · intro x hx
@@ -86,6 +100,12 @@ theorem wrote_write (m : Memory) (a : BitVec 32) (d : Byte) (mk : BitVec 32) (P 
     · split
       · exact BitVec.le_refl _
       · rename_i h; exact BitVec.not_lt.mp h
+  · rw [write_low]; split
+    · exact Or.inr (by simp)
+    · exact Or.inl rfl
+  · rw [write_high]; split
+    · exact Or.inr (by simp)
+    · exact Or.inl rfl
 
 /-! ### blocks of `memory_write_inc` -/
 
